@@ -45,11 +45,11 @@ var initAllowPrefixes = []string{
 // initSkipped: packages whose initialisers are never evaluated (runtime internals).
 func (e *Engine) initSkipped(pkg *ssa.Package) bool {
 	p := pkg.Pkg.Path()
-	for _, pre := range []string{"runtime", "internal/", "reflect", "syscall", "os", "unsafe", "sync", "time", "errors",
+	for _, pre := range []string{"runtime", "internal/", "reflect", "syscall", "os/", "unsafe", "sync", "time", "errors",
 		"google.golang.org/protobuf/", "google.golang.org/grpc", "github.com/prometheus/", "crypto/", "net", "log", "fmt",
 		"go.opentelemetry.io/", "golang.org/x/", "github.com/golang/protobuf", "encoding/json", "testing", "regexp", "math/rand", "hash/"} {
 		if p == pre || strings.HasPrefix(p, pre) {
-			if p == "google.golang.org/protobuf/encoding/protowire" || p == "google.golang.org/protobuf/internal/errors" || p == "google.golang.org/grpc/codes" {
+			if p == "internal/oserror" || p == "google.golang.org/protobuf/encoding/protowire" || p == "google.golang.org/protobuf/internal/errors" || p == "google.golang.org/grpc/codes" {
 				return false
 			}
 			return true
